@@ -169,3 +169,24 @@ def writer_elision_constants(W, key, cls, plan):
                 if term[0] == "eq" and isinstance(term[1], list) and term[1][0] == "attr" and term[1][2] == f["name"] and term[2] not in consts:
                     consts.append(term[2])
         yield f, consts, want
+
+
+def length_domain_rows(W, pf, construct):
+    """Per length-prefixed layer of a field's writer: (ok, construct, stmt, message, loc) -- the writer accepts every length the
+    format carries (fixed prefix: its capacity; compact string: 32767; compact bytes/records: what uvarint(length + 1) carries)."""
+    from ..grammar import max_len_accepted, length_capacity
+    wd = pf["w"]
+    while wd is not None:
+        k, prefix = wd.get("k"), (wd.get("prefix") or {})
+        if k in ("lenpref", "array") and prefix.get("k") == "fixed":
+            cap, mx, what = length_capacity(prefix, wd.get("bias", 0)), max_len_accepted(wd.get("guards")), f"the {prefix.get('fmt')} length prefix"
+        elif k == "lenpref" and prefix.get("k") == "varint":
+            text = str(wd.get("payload", "")).startswith("text") or (isinstance(wd.get("payload"), dict) and wd["payload"].get("k") == "text")
+            cap, mx, what = (32767 if text else (1 << 31) - 2), max_len_accepted(wd.get("guards")), f"a compact {'string' if text else 'bytes/records'} field"
+        else:
+            cap = mx = what = None
+        if what is not None:
+            yield (mx is None or cap is None or mx >= cap, wd.get("_codec", construct), f"length guard accepts up to {mx}; {what} carries {cap}",
+                   f"the writer rejects lengths above {mx} although {what} carries up to {cap}: a well-typed value of that length cannot be encoded",
+                   W.codec_loc({"fn": wd.get("_codec", ":"), "line": wd.get("_line", 0)}))
+        wd = wd.get("item") or wd.get("inner")
